@@ -362,6 +362,14 @@ package protocol
 //@   // name of the user that authenticated it
 //@   requires seg.block != nil ==> blockUser(seg.block) != ""
 //@   requires s.block.v != nil ==> *asptr(s.block.v, *cipher.BlockCipher) != nil && blockUser(*asptr(s.block.v, *cipher.BlockCipher)) != ""
+//@   // data invariants maintained by the underlays and by this function itself (assumed here):
+//@   // a session's retained policy belongs to the user of its cipher; a session created for an
+//@   // open request is first fed that request; a segment's attached policy is the policy of the
+//@   // user that authenticated it; the pending policy table is keyed by policy name
+//@   requires s.block.v != nil && s.userPolicy.v != nil ==> asptr(s.userPolicy.v, *serveruser.Policy).name == blockUser(*asptr(s.block.v, *cipher.BlockCipher))
+//@   requires s.block.v == nil && s.userPolicy.v != nil && seg.block != nil ==> asptr(s.userPolicy.v, *serveruser.Policy).name == blockUser(seg.block)
+//@   requires seg.block != nil && seg.serverUserPolicy.name != "" ==> seg.serverUserPolicy.name == blockUser(seg.block)
+//@   requires s.pendingServerUserPolicies != nil ==> all(k, string, has(s.pendingServerUserPolicies, k) ==> s.pendingServerUserPolicies[k].name == k)
 //@   ensures old(s.isClient) && !(old(protoOf(seg)) == 3 || old(protoOf(seg)) == 7 || old(protoOf(seg)) == 11 || old(protoOf(seg)) == 9 || old(protoOf(seg)) == 4 || old(protoOf(seg)) == 5) ==> err != nil && s.nextRecv.v == old(s.nextRecv.v) && ghost(qn) == old(ghost(qn))
 //@   ensures !old(s.isClient) && !(old(protoOf(seg)) == 2 || old(protoOf(seg)) == 6 || old(protoOf(seg)) == 10 || old(protoOf(seg)) == 8 || old(protoOf(seg)) == 4 || old(protoOf(seg)) == 5) ==> err != nil && s.nextRecv.v == old(s.nextRecv.v) && ghost(qn) == old(ghost(qn))
 //@
